@@ -1157,6 +1157,36 @@ func scanPanicObligations(w *World, r *Report, rule string, cone map[*types.Func
 					}
 				}
 			}
+			// a fragment shared out of several reviewed functions: every caller of this (unexported) function
+			// has a reviewed entry for the same expression
+			if rev == nil {
+				if fnObj, _ := p.TypesInfo.Defs[fd.Name].(*types.Func); fnObj != nil && !fnObj.Exported() {
+					var callers []string
+					for _, fd2 := range funcDecls(p) {
+						if fd2 != fd && fd2.Body != nil && len(allCallsTo(p, fd2.Body, fnObj)) > 0 {
+							callers = append(callers, funcDeclName(fd2))
+						}
+					}
+					var first *reviewedEntry
+					all := len(callers) > 0
+					for _, cn := range callers {
+						var hit *reviewedEntry
+						for i := range reviewed {
+							if reviewed[i].Func == cn && reviewed[i].Requires == "" && (reviewed[i].Expr == es || reviewed[i].Expr == en) {
+								hit = &reviewed[i]
+							}
+						}
+						if hit == nil {
+							all = false
+						} else if first == nil {
+							first = hit
+						}
+					}
+					if all {
+						rev = first
+					}
+				}
+			}
 			// the entry of a function that was inlined here (it exists no more): same expression
 			if rev == nil {
 				for i := range reviewed {
